@@ -43,10 +43,28 @@ def ser_gen(integ, w):
         yield pj.write_frames([fr], True)
 
 
+GRAPH_WL = {
+    "G1": [(alpha.I_AX, [WL["A"]["items"][0][1:4], WL["A"]["items"][1][1:4]]), (alpha.DEF, [WL["A"]["items"][2][1:4]])],
+    "G2": [(alpha.B1, [WL["C"]["items"][0][1:4]]), (alpha.I_CZ, [WL["C"]["items"][2][1:4], WL["A"]["items"][1][1:4]])],
+}
+
+
+def graphs_bytes(w):
+    """a GRAPHS-physical stream (identical stream options for every workload), one frame per row group"""
+    opts = pj.make_options(3, frame_size=2, prefixes=4, datatypes=4, generalized=False, rdf_star=False)
+    stream = pj.gen_stream(3, opts)
+    stream.enroll()
+    frames = []
+    for g, ts in GRAPH_WL[w]:
+        frames += list(stream.graph(pj.terms.to_generic(g), [tuple(pj.terms.to_generic(x) for x in t) for t in ts]))
+    tail = stream.flow.to_stream_frame()
+    return pj.write_frames(frames + ([tail] if tail is not None else []), True)
+
+
 def parse_gen(integ, w):
     """generator: one parsed item per step (bytes prepared natively)"""
     with notrace():
-        data = b"".join(ser_gen("generic", w))
+        data = graphs_bytes(w) if w in GRAPH_WL else b"".join(ser_gen("generic", w))
     if integ == "generic":
         from pyjelly.integrations.generic.parse import parse_jelly_flat
         for x in parse_jelly_flat(io.BytesIO(data)):
